@@ -195,8 +195,12 @@ impl ReceiverInner {
         match self.incomplete_transfer { Some(i) => i.wf(), None => true }
     }
 
+    /// `self.dispose(&delivery, None, Accepted{}.into()).await` (the auto-accept disposition): it queues a frame on the bounded link->session channel and so is a
+    /// cancellation point -- the recv future may be dropped while it pends. `received`: the payload octets taken from the link's incoming channel for the delivery
+    /// that has not been returned to the application yet.
     #[verifier::external_body]
-    fn dispose_accept(&mut self, d: &Delivery) -> (r: Result<(), DispositionError>)
+    fn dispose_accept(&mut self, d: &Delivery, Ghost(received): Ghost<Seq<u8>>) -> (r: Result<(), DispositionError>)
+        requires old(self).buffered() =~= received,      // [C16.recv.no-await-while-holding-a-delivery] at a cancellation point every payload octet already taken from the channel for a delivery not yet returned is still held by the receiver ITSELF (its reassembly buffer), not only by locals of the future being polled: otherwise dropping the recv future there loses the delivery
         ensures final(self).incomplete_transfer == old(self).incomplete_transfer, final(self).link == old(self).link,
     { unimplemented!() }
 
@@ -231,7 +235,7 @@ impl ReceiverInner {
 //@@ generics
 //@@ nowhere
 //@@ subst `Delivery<T>` => `Delivery` rule=R7
-//@@ subst `self.dispose(&delivery, None, Accepted {}.into())` => `self.dispose_accept(&delivery)` rule=R16
+//@@ subst `self.dispose(&delivery, None, Accepted {}.into())` => `self.dispose_accept(&delivery, Ghost(__recv0))` rule=R16
 //@@ spec
     requires
         old(self).wf(), old(self).buffered().len() + payload@.len() < 0x1_0000_0000,     // ASSUMED: a delivery buffers fewer than 2^32 bytes
@@ -240,6 +244,7 @@ impl ReceiverInner {
         r is Ok ==> r->Ok_0 is Some && r->Ok_0->Some_0.bytes@ =~= old(self).buffered() + payload@,         // [C10.complete.bytes] exactly one delivery, decoded from the concatenation of all frame payloads in arrival order [C01.reassembly.bytes]
         r is Ok && old(self).incomplete_transfer is None ==> r->Ok_0->Some_0.performative == transfer,
 //@@ entry
+        let ghost __recv0 = self.buffered() + payload@;
         proof {
             lemma_concat_one(payload);
             if self.incomplete_transfer is Some { lemma_concat_push(self.incomplete_transfer->Some_0.buffer@, payload); }
